@@ -126,3 +126,18 @@ Theorem triangulate_nonsimple_refuted :
   | Err _ => False
   end.
 Proof. split; vm_compute; reflexivity. Qed.
+
+(* ------------------------------------------------------------------ third known finding: two triangles on the same three
+   vertices (the closed 2-triangle sphere).  Every directed edge occurs once; after loop_subdivision(1) the interior
+   edges of the two refinements coincide: directed edges twice, 9 edges instead of 2*3+3*2 = 12. *)
+Definition w_pillow_V : list pt := [(qz 0, qz 0, qz 0); (qz 4, qz 0, qz 0); (qz 0, qz 4, qz 0)].
+Definition w_pillow_F : list (list Z) := [[0; 1; 2]; [2; 1; 0]].
+
+Theorem loop_same_vertex_triangles_refuted :
+  nodupb (dedges_all w_pillow_F) = true /\
+  match run_surface QcO (input_surface w_pillow_V w_pillow_F) [Loop 1] with
+  | Ok r => nodupb (dedges_all (rf (pr (res_mesh r)))) = false /\
+            Zlen (re (pr (res_mesh r))) = 9 /\ Zlen (rv (pr (res_mesh r))) - Zlen (re (pr (res_mesh r))) + Zlen (rf (pr (res_mesh r))) = 5
+  | Err _ => False
+  end.
+Proof. split; vm_compute; repeat split; reflexivity. Qed.
